@@ -263,4 +263,21 @@ theorem generated_constants_match :
   decide
 
 end Configuration
+
+/-! ## The SQL-level statement (not claimed here) -/
+
+/-- NOT CLAIMED as a theorem. The full SQL-level statement of C12 for an engine semantics `run` (configuration →
+    statements → answers): any two configurations in the documented ranges answer every workload identically unless
+    one of them reports out-of-memory. What is proved above is its storage half — the pager answers independently of
+    the cache capacity (`capacity_irrelevant`, `outputs_refine_store`) and the settings reach the engine unchanged
+    (`config_roundtrip`). The other half — results independent of the page geometry (page size, min keys, siblings)
+    and of the pool size — needs the logical database model and C10's tree theorems (`geometry_irrelevant` in DESIGN §5);
+    here it is only *tested*, by the configuration grid of engine `cache` (`grid` cases). -/
+def sql_results_independent_of_configuration_statement {Stmt Answer : Type}
+    (run : Config.Config → List Stmt → List Answer) (isOom : Answer → Bool) : Prop :=
+  ∀ (c₁ c₂ : Config.Config) (w : List Stmt),
+    InDocumentedRange c₁.cacheSize c₁.minKeys c₁.siblings → InDocumentedRange c₂.cacheSize c₂.minKeys c₂.siblings →
+    (run c₁ w).all (fun a => !isOom a) = true → (run c₂ w).all (fun a => !isOom a) = true →
+    run c₁ w = run c₂ w
+
 end AxVerif.Cache
